@@ -21,6 +21,7 @@ D  fault injection at the ONNX boundary for CheckerPass / ShapeInferencePass on 
 from __future__ import annotations
 
 import contextlib
+import json
 import logging
 import random
 
@@ -222,6 +223,12 @@ def _exc_name(e: BaseException) -> str:
     return n if n in ("PreconditionError", "PostconditionError", "PassError", "TypeError") else "other"
 
 
+def P_result(model):
+    import onnx_ir as ir
+
+    return ir.passes.PassResult(model, True)
+
+
 def run_infra_real(spec: dict) -> dict:
     env = _Env()
     try:
@@ -232,7 +239,9 @@ def run_infra_real(spec: dict) -> dict:
     env.reg(m0)
     with _patched_clone(env):
         try:
-            r = p(m0)
+            # a PassResult is accepted in place of the model (its flag is ignored)
+            arg = m0 if len(json.dumps(spec)) % 2 else P_result(m0)
+            r = p(arg)
             res = ["ok", env.reg(r.model), bool(r.modified)]
         except Exception as e:  # noqa: BLE001
             res = ["raised", _exc_name(e)]
@@ -252,7 +261,31 @@ def infra_oracle(part: Part, spec: dict, obs: dict) -> None:
 
 # =========================================================================== B. call_onnx_api
 
-_SHAPES = {"small": (1, 64), "tiny": (1, 1), "big": (4, 64)}
+# (dtype, shape): sizes around _BIG_TENSOR_SIZE_LIMIT = 1000 bytes are hit exactly with uint8 tensors
+_KINDS = {
+    "small": ("f32", (1, 64)),  # 256 bytes
+    "tiny": ("f32", (1, 1)),  # 4 bytes
+    "big": ("f32", (4, 64)),  # 1024 bytes
+    "f996": ("f32", (249,)),
+    "f1000": ("f32", (250,)),
+    "f1004": ("f32", (251,)),
+    "u999": ("u8", (999,)),
+    "u1000": ("u8", (1000,)),  # == limit: NOT stripped (the test is `>`)
+    "u1001": ("u8", (1001,)),  # limit + 1: stripped
+    "u0": ("u8", (0,)),
+}
+_SHAPES = {k: v[1] for k, v in _KINDS.items()}  # (the model generator of part C uses small/tiny/big)
+
+
+def gen_call(rng: random.Random, n: int) -> dict:
+    """One call: where it fails.  `prim` = the k-th primitive effect of the strip loop raises, before or
+    after taking effect (k may lie beyond the last effect: then nothing is injected)."""
+    kind = rng.choice(["none", "none", "func", "ser", "prim", "prim", "prim", "attr_shape", "attr_dtype", "deser"])
+    c = {"fault": kind}
+    if kind == "prim":
+        c["k"] = rng.randrange(0, 4 * n + 2)
+        c["after"] = rng.random() < 0.4
+    return c
 
 
 def gen_capi_case(rng: random.Random) -> dict:
@@ -260,7 +293,8 @@ def gen_capi_case(rng: random.Random) -> dict:
     inits = []
     for i in range(n):
         kind = rng.choice(
-            ["small", "small", "big", "big", "tiny", "none", "lazy_small", "lazy_big", "lazybad_small", "lazybad_big"]
+            ["small", "small", "big", "big", "tiny", "none", "lazy_small", "lazy_big", "lazybad_small", "lazybad_big",
+             "f996", "f1000", "f1004", "u999", "u1000", "u1001", "u0"]
         )
         inits.append(
             {
@@ -269,15 +303,15 @@ def gen_capi_case(rng: random.Random) -> dict:
                 "has_shape": rng.random() < 0.4,
                 "has_type": rng.random() < 0.4,
                 "is_input": rng.random() < 0.25,
+                "tname": rng.choice(["same", "same", "other", "none"]),  # tensor.name vs value.name
             }
         )
     rng.shuffle(inits)
-    fault = rng.choice(["none", "none", "none", "func", "func", "ser", "attr_shape", "attr_dtype"])
-    target = rng.randrange(n) if n else 0
+    calls = [gen_call(rng, n) for _ in range(rng.choice([1, 1, 1, 2, 3]))]
     return {
         "inits": inits,
-        "fault": fault,
-        "target": target,
+        "calls": calls,
+        "target": rng.randrange(n) if n else 0,
         "mode": rng.choice(["call", "call", "checker", "shape"]),
         "n_inputs": rng.choice([1, 2]),
     }
@@ -315,6 +349,7 @@ def build_capi_model(case: dict):
 
     FT = _faulty_tensor_class()
     F = ir.DataType.FLOAT
+    attr_fault = next((c["fault"] for c in case["calls"] if c["fault"] in ("attr_shape", "attr_dtype")), None)
     xs = [
         ir.Value(name=f"x{i}", shape=ir.Shape([4, 64]), type=ir.TensorType(F)) for i in range(case["n_inputs"])
     ]
@@ -322,9 +357,12 @@ def build_capi_model(case: dict):
     for k, spec in enumerate(case["inits"]):
         kind = spec["kind"]
         base = kind.split("_")[-1] if "_" in kind else kind
-        shape = _SHAPES.get(base, (1, 64))
-        arr = np.full(shape, float(k + 1), dtype=np.float32)
+        dt, shape = _KINDS.get(base, ("f32", (1, 64)))
+        npdt = np.float32 if dt == "f32" else np.uint8
+        irdt = F if dt == "f32" else ir.DataType.UINT8
+        arr = np.full(shape, k + 1, dtype=npdt)
         name = spec["name"]
+        tname = {"same": name, "other": "t_" + name, "none": None}[spec.get("tname", "same")]
         if kind == "none":
             t = None
         elif kind.startswith("lazybad"):
@@ -332,20 +370,20 @@ def build_capi_model(case: dict):
             def boom():
                 raise RuntimeError("injected: lazy tensor")
 
-            t = ir.LazyTensor(boom, dtype=F, shape=ir.Shape(shape), name=name)
+            t = ir.LazyTensor(boom, dtype=irdt, shape=ir.Shape(list(shape)), name=tname)
         elif kind.startswith("lazy"):
-            t = ir.LazyTensor(lambda arr=arr, name=name: ir.Tensor(arr, name=name), dtype=F, shape=ir.Shape(shape), name=name)
+            t = ir.LazyTensor(lambda arr=arr, tname=tname: ir.Tensor(arr, name=tname), dtype=irdt, shape=ir.Shape(list(shape)), name=tname)
         else:
-            if case["fault"] in ("attr_shape", "attr_dtype") and k == case["target"]:
-                t = FT(arr, name=name)
-                t._fault_attr = case["fault"].split("_")[1]
+            if attr_fault and k == case["target"]:
+                t = FT(arr, name=tname)
+                t._fault_attr = attr_fault.split("_")[1]
             else:
-                t = ir.Tensor(arr, name=name)
+                t = ir.Tensor(arr, name=tname)
         v = ir.Value(name=name, const_value=t)
         if spec["has_shape"] or t is None:
-            v.shape = ir.Shape(shape)
+            v.shape = ir.Shape(list(shape))
         if spec["has_type"] or t is None:
-            v.type = ir.TensorType(F)
+            v.type = ir.TensorType(irdt)
         vals.append(v)
         if spec["is_input"]:
             inputs.append(v)
@@ -404,6 +442,7 @@ def _world_snapshot(graph, universe, tens, shp, typ) -> dict:
         "vals": vals,
         "inits": [[k, uidx.get(id(v), -1)] for k, v in graph.initializers.items()],
         "inputs": [uidx.get(id(v), -1) for v in graph.inputs],
+        "tnames": [t.name or "" for t in tens],  # tensor.name: the one thing serialization writes
     }
 
 
@@ -414,19 +453,73 @@ def _ownership_snapshot(graph, universe):
     ] + [(id(v.shape), id(v.type), id(v.const_value)) for v in universe]
 
 
+@contextlib.contextmanager
+def _prim_fault(k, after):
+    """Make the k-th primitive effect of the strip loop of call_onnx_api raise (before or after taking
+    effect) by wrapping the five operations it is made of; disarmed when serialization starts or the fault
+    has fired, so the `finally` block runs undisturbed."""
+    import onnx_ir as ir
+    from onnx_ir import _graph_containers as gc
+
+    st = {"n": 0, "armed": k is not None}
+
+    def hit(do):
+        if not st["armed"]:
+            return do()
+        me = st["n"]
+        st["n"] += 1
+        if me == k:
+            st["armed"] = False
+            if after:
+                do()
+            raise RuntimeError(f"injected: strip step {k} ({'after' if after else 'before'} its effect)")
+        return do()
+
+    V = ir.Value
+    p_shape, p_dtype, p_const = V.shape, V.dtype, V.const_value
+    o_append, had_pop = gc.GraphInputs.append, "pop" in gc.GraphInitializers.__dict__
+    o_pop = gc.GraphInitializers.pop
+
+    V.shape = property(p_shape.fget, lambda self, x: hit(lambda: p_shape.fset(self, x)))
+    V.dtype = property(p_dtype.fget, lambda self, x: hit(lambda: p_dtype.fset(self, x)))
+    V.const_value = property(
+        p_const.fget, lambda self, x: hit(lambda: p_const.fset(self, x)) if x is None else p_const.fset(self, x)
+    )
+    gc.GraphInputs.append = lambda self, item: hit(lambda: o_append(self, item))
+    gc.GraphInitializers.pop = lambda self, *a: hit(lambda: o_pop(self, *a))
+
+    def disarm():
+        st["armed"] = False
+
+    try:
+        yield disarm
+    finally:
+        V.shape, V.dtype, V.const_value = p_shape, p_dtype, p_const
+        gc.GraphInputs.append = o_append
+        if had_pop:
+            gc.GraphInitializers.pop = o_pop
+        else:
+            del gc.GraphInitializers.pop
+
+
 def run_capi_real(case: dict) -> tuple[dict, dict, list]:
     """Returns (lean request, implementation observation, oracle failures)."""
     import onnx
     import onnx_ir as ir
     from onnx_ir.passes.common import _c_api_utils, onnx_checker, shape_inference
 
+    if "calls" not in case:  # recorded cases of the first format: a single call
+        case = {**case, "calls": [{"fault": case.get("fault", "none")}]}
     model, vals, xs = build_capi_model(case)
     g = model.graph
-    universe = list(xs) + list(vals)
+    universe = list(ir.convenience.create_value_mapping(g).values())
+    for v in list(xs) + list(vals):
+        if all(v is not u for u in universe):
+            universe.append(v)
     tens, shp, typ = [], _Tokens(), _Tokens()
     before = _world_snapshot(g, universe, tens, shp, typ)
     own_before = _ownership_snapshot(g, universe)
-    # tokens the strip can introduce: tensor shapes / dtypes
+    tensors_before = list(tens)
     req_vals = []
     for v, b in zip(universe, before["vals"]):
         t = v.const_value
@@ -441,96 +534,150 @@ def run_capi_real(case: dict) -> tuple[dict, dict, list]:
                 "bad": kind.startswith("lazybad"),
             }
         req_vals.append({"name": b["name"], "const": c, "shape": b["shape"], "type": b["type"]})
+    merge_ids = [i for i, v in enumerate(universe) if v.name and ir.convenience.create_value_mapping(g).get(v.name) is v]
     req = {
         "m": "passinfra.capi",
         "mode": case["mode"],
         "vals": req_vals,
         "inits": [{"k": k, "v": i} for k, i in before["inits"]],
         "inputs": before["inputs"],
-        "fault": None,
-        "ser_fail": case["fault"] == "ser",
-        "func_ok": case["fault"] != "func",
-        "fault_on": None,
+        "tnames": before["tnames"],
+        "seq": [],
     }
-    if case["fault"] in ("attr_shape", "attr_dtype") and case["inits"]:
-        tname = case["inits"][case["target"]]["name"]
-        tv = next(v for v in vals if v.name == tname)
-        if isinstance(tv.const_value, ir.Tensor) and type(tv.const_value).__name__ == "FaultyTensor":
-            req["fault_on"] = ["setShape" if case["fault"] == "attr_shape" else "setDtype", universe.index(tv)]
-
-    seen = {}
-
-    def func(proto):
-        gi = proto.graph
-        seen["proto"] = {
-            "inits": [t.name for t in gi.initializer],
-            "inputs": [
-                [
-                    i.name,
-                    shp.tok(
-                        "[" + ",".join(str(d.dim_value) for d in i.type.tensor_type.shape.dim) + "]"
-                        if i.type.tensor_type.HasField("shape")
-                        else None
-                    ),
-                    typ.tok(str(ir.DataType(i.type.tensor_type.elem_type)) if i.type.HasField("tensor_type") and i.type.tensor_type.elem_type else None),
-                ]
-                for i in gi.input
-            ],
-        }
-        if case["fault"] == "func":
-            raise RuntimeError("injected: onnx call")
-        return proto
-
     orig_ser = ir.serde.serialize_model
+    orig_deser = ir.serde.deserialize_model
     orig_check = onnx.checker.check_model
     orig_infer = onnx.shape_inference.infer_shapes
+    trace, fails, protos = [], [], []
+    cur_before, own_cur = before, own_before
+    for ci, call in enumerate(case["calls"]):
+        fault = call["fault"]
+        if fault == "deser" and case["mode"] != "shape":
+            fault = "none"
+        lc = {"fault": None, "ser_fail": fault == "ser", "func_ok": fault != "func", "fault_on": None,
+              "deser_ok": fault != "deser", "inferred": [], "merge_ids": merge_ids}
+        if fault == "prim":
+            lc["fault"] = [call["k"], call["after"]]
+        if fault in ("attr_shape", "attr_dtype") and case["inits"]:
+            tname = case["inits"][case["target"]]["name"]
+            tv = next(v for v in vals if v.name == tname)
+            if type(tv.const_value).__name__ == "FaultyTensor":
+                lc["fault_on"] = ["setShape" if fault == "attr_shape" else "setDtype", universe.index(tv)]
+        seen = {}
 
-    def ser(m, *a, **kw):
-        if case["fault"] == "ser":
-            raise RuntimeError("injected: serialize_model")
-        return orig_ser(m, *a, **kw)
+        def func(proto, real=None):
+            gi = proto.graph
+            seen["proto"] = {
+                "inits": [t.name for t in gi.initializer],
+                "inputs": [
+                    [
+                        i.name,
+                        shp.tok(
+                            "[" + ",".join(str(d.dim_value) for d in i.type.tensor_type.shape.dim) + "]"
+                            if i.type.tensor_type.HasField("shape")
+                            else None
+                        ),
+                        typ.tok(str(ir.DataType(i.type.tensor_type.elem_type)) if i.type.HasField("tensor_type") and i.type.tensor_type.elem_type else None),
+                    ]
+                    for i in gi.input
+                ],
+            }
+            if fault == "func":
+                raise RuntimeError("injected: onnx call")
+            if real is not None:
+                try:
+                    res = real(proto)
+                except Exception:  # noqa: BLE001 - a natural failure of the ONNX call: the model says func_ok
+                    lc["func_ok"] = False
+                    raise
+                seen["inferred"] = res
+                return res
+            return proto
 
-    out = None
-    _Armed.on = True
-    ir.serde.serialize_model = ser
-    try:
-        if case["mode"] == "call":
+        out = None
+        with _prim_fault(call.get("k") if fault == "prim" else None, call.get("after", False)) as disarm:
+
+            def ser(m, *a, **kw):
+                disarm()
+                if fault == "ser":
+                    raise RuntimeError("injected: serialize_model")
+                return orig_ser(m, *a, **kw)
+
+            def deser(p, *a, **kw):
+                if fault == "deser":
+                    raise RuntimeError("injected: deserialize_model")
+                return orig_deser(p, *a, **kw)
+
+            _Armed.on = fault in ("attr_shape", "attr_dtype")
+            ir.serde.serialize_model = ser
+            ir.serde.deserialize_model = deser
             try:
-                _c_api_utils.call_onnx_api(func, model)
-                out = ["ok"]
-            except Exception:  # noqa: BLE001
-                out = ["raised"]
-        else:
-            onnx.checker.check_model = lambda proto, *a, **kw: func(proto) and None
-            onnx.shape_inference.infer_shapes = lambda proto, *a, **kw: func(proto)
-            p = onnx_checker.CheckerPass() if case["mode"] == "checker" else shape_inference.ShapeInferencePass()
+                if case["mode"] == "call":
+                    try:
+                        _c_api_utils.call_onnx_api(func, model)
+                        out = ["ok"]
+                    except Exception:  # noqa: BLE001
+                        out = ["raised"]
+                else:
+                    onnx.checker.check_model = lambda proto, *a, **kw: func(proto) and None
+                    onnx.shape_inference.infer_shapes = lambda proto, *a, **kw: func(
+                        proto, lambda p: orig_infer(p, *a, **kw)
+                    )
+                    p = onnx_checker.CheckerPass() if case["mode"] == "checker" else shape_inference.ShapeInferencePass()
+                    try:
+                        r = p(model)
+                        out = ["ok", bool(r.modified)]
+                    except Exception:  # noqa: BLE001
+                        out = ["raised"]
+            finally:
+                _Armed.on = False
+                ir.serde.serialize_model = orig_ser
+                ir.serde.deserialize_model = orig_deser
+                onnx.checker.check_model = orig_check
+                onnx.shape_inference.infer_shapes = orig_infer
+        if case["mode"] == "shape" and seen.get("inferred") is not None and fault != "deser":
             try:
-                r = p(model)
-                out = ["ok", bool(r.modified)]
+                inf_model = orig_deser(seen["inferred"])
+                lc["inferred"] = [
+                    {"n": n, "s": shp.tok(None if v.shape is None else str(v.shape)), "d": typ.tok(None if v.type is None else str(v.dtype))}
+                    for n, v in ir.convenience.create_value_mapping(inf_model.graph).items()
+                ]
             except Exception:  # noqa: BLE001
-                out = ["raised"]
-    finally:
-        _Armed.on = False
-        ir.serde.serialize_model = orig_ser
-        onnx.checker.check_model = orig_check
-        onnx.shape_inference.infer_shapes = orig_infer
-    after = _world_snapshot(g, universe, tens, shp, typ)
-    own_after = _ownership_snapshot(g, universe)
-    obs = {"out": out, "proto": seen.get("proto"), "world": after}
-    fails = []
-    # oracle: the property itself.  "shape" mode on success merges inferred shapes: there the
-    # model may change (flag honesty is checked in part C), everything else must be unchanged.
-    merged = case["mode"] == "shape" and out == ["ok", True]
-    if not merged:
-        sig = f"call_onnx_api/{case['mode']}/{case['fault']}"
-        if after["inits"] != before["inits"]:
+                lc["deser_ok"] = False
+        after = _world_snapshot(g, universe, tens, shp, typ)
+        own_after = _ownership_snapshot(g, universe)
+        trace.append({"out": out, "world": after})
+        protos.append(seen.get("proto"))
+        req["seq"].append(lc)
+        # ---- oracle: the property itself, after every call of the sequence.  A successful shape
+        # inference merges inferred shapes (flag honesty: bytes, below); everything else leaves the model
+        # unchanged - except tensor.name, which serialization aligns with the value name (documented).
+        sig = f"call_onnx_api/{case['mode']}/{fault}" + ("" if ci == 0 else "/later-call-of-a-sequence")
+        merged = case["mode"] == "shape" and out == ["ok", True]
+        if after["inits"] != cur_before["inits"]:
             fails.append((sig + "/initializer-keys-or-order", "initializer mapping differs after the call"))
-        if after["inputs"] != before["inputs"]:
+        if after["inputs"] != cur_before["inputs"]:
             fails.append((sig + "/graph-inputs", "graph inputs differ after the call"))
-        if after["vals"] != before["vals"]:
+        if not merged and after["vals"] != cur_before["vals"]:
             fails.append((sig + "/value-const-shape-type", "tensor/shape/type of a value differs after the call"))
-        if own_after != own_before and not fails:
+        if merged and [(v["name"], v["const"]) for v in after["vals"]] != [(v["name"], v["const"]) for v in cur_before["vals"]]:
+            fails.append((sig + "/value-const", "tensor of a value differs after a successful shape inference"))
+        if case["mode"] == "shape" and out == ["ok", False] and after["vals"] != cur_before["vals"]:
+            fails.append((sig + "/modified-false-but-changed", "ShapeInference reports False but a shape/type was written"))
+        if len(tens) != len(tensors_before):
+            fails.append((sig + "/new-tensor-object", "a value carries a tensor object that did not exist before"))
+        init_names = {}
+        for k, i in before["inits"]:
+            c = before["vals"][i]["const"]
+            if c is not None:
+                init_names.setdefault(c, set()).add(k)
+        for ti, (tb, ta) in enumerate(zip(cur_before["tnames"], after["tnames"])):
+            if ta != tb and ta not in init_names.get(ti, ()):
+                fails.append((sig + "/tensor-name", f"tensor.name changed from {tb!r} to {ta!r}, which is not the name of an initializer value holding it"))
+        if not merged and own_after != own_cur and not fails:
             fails.append((sig + "/ownership-or-object-identity", "ownership flags, uses or field object identities differ"))
+        cur_before, own_cur = after, own_after
+    obs = {"trace": trace, "proto": protos[-1], "out": trace[-1]["out"]}
     return req, obs, fails
 
 
@@ -543,16 +690,18 @@ _BINARY = ["Add", "Mul", "Sub"]
 class ModelGen:
     """Structured generator of mostly checker-valid models (see module docstring)."""
 
-    def __init__(self, seed, *, messy_names=False, unsorted=False, sub_unsorted=False, shared_fn_names=False):
+    def __init__(self, seed, *, messy_names=False, unsorted=False, sub_unsorted=False, shared_fn_names=False, cyclic=False):
         import onnx_ir as ir
 
         self.ir = ir
+        self.seed = seed
         self.rng = random.Random(seed)
         self.n = 0
         self.messy = messy_names
         self.unsorted = unsorted
         self.sub_unsorted = sub_unsorted  # only nested subgraphs are out of order
         self.shared_fn_names = shared_fn_names
+        self.cyclic = cyclic
         self.fn_pool = []
         self.F = ir.DataType.FLOAT
         self.functions = []
@@ -586,12 +735,14 @@ class ModelGen:
                 arr = arr + np.arange(arr.size, dtype=np.float32).reshape(arr.shape)
             pool.append(arr)
         name = self.name("w")
+        # tensor.name need not be the value name (a side stream of randomness: model seeds stay stable)
+        tn = random.Random(f"tn:{self.seed}:{name}").choice([name, name, name, "t_" + name, None])
         if r.random() < 0.2:
             t = ir.LazyTensor(
-                lambda arr=arr, name=name: ir.Tensor(arr, name=name), dtype=self.F, shape=ir.Shape(list(arr.shape)), name=name
+                lambda arr=arr, tn=tn: ir.Tensor(arr, name=tn), dtype=self.F, shape=ir.Shape(list(arr.shape)), name=tn
             )
         else:
-            t = ir.Tensor(arr, name=name)
+            t = ir.Tensor(arr, name=tn)
         v = ir.Value(name=name, const_value=t)
         if r.random() < 0.5:
             v.shape = ir.Shape(list(arr.shape))
@@ -614,10 +765,23 @@ class ModelGen:
             nodes.append(c)
             return c.outputs[0]
 
+        side = random.Random(f"bn:{self.seed}:{self.n}")
         if r.random() < 0.6:
             x = r.choice(avail)
-            node = ir.node("LayerNormalization", [x, const((64,), 1.0), const((64,), 0.0)], {"axis": -1}, num_outputs=3, name=self.name("n"))
-            shapes = [[4, 64], [4, 1], [4, 1]]
+            if side.random() < 0.35:
+                # BatchNormalization in training mode: running_mean / running_var are the optional outputs,
+                # and the pass drops the training_mode attribute together with them
+                node = ir.node(
+                    "BatchNormalization",
+                    [x, const((64,), 1.0), const((64,), 0.0), const((64,), 0.0), const((64,), 1.0)],
+                    {"training_mode": 1},
+                    num_outputs=3,
+                    name=self.name("n"),
+                )
+                shapes = [[4, 64], [64], [64]]
+            else:
+                node = ir.node("LayerNormalization", [x, const((64,), 1.0), const((64,), 0.0)], {"axis": -1}, num_outputs=3, name=self.name("n"))
+                shapes = [[4, 64], [4, 1], [4, 1]]
             first_optional = 1
         else:
             # X: [seq=4, batch=1, input=64] would need a reshape; use dedicated constants instead
@@ -634,8 +798,13 @@ class ModelGen:
         self.meta(node)
         nodes.append(node)
         followers = []
+        bn_mode = None
         for i in range(first_optional, 3):
             mode = r.choice(["used", "used", "unused", "unused", "blank"])
+            if node.op_type == "BatchNormalization":
+                # 1 or 3 outputs are the only valid counts: both optional outputs share their fate
+                bn_mode = bn_mode or mode
+                mode = bn_mode
             o = node.outputs[i]
             if mode == "blank":
                 o.name = ""
@@ -733,7 +902,32 @@ class ModelGen:
                 subs = []
                 for _b in range(2):
                     subs.append(self.graph(avail, cond, depth + 1, False))
-                node = ir.node("If", [cond], {"then_branch": subs[0], "else_branch": subs[1]}, name=self.name("n"))
+                if random.Random(f"loop:{self.seed}:{self.n}").random() < 0.3:
+                    # a Loop whose body (inputs: iteration number, condition, carried value) captures an outer
+                    # value and nests the first generated subgraph's work behind it
+                    it = ir.Value(name=self.name("it"), shape=ir.Shape([]), type=ir.TensorType(ir.DataType.INT64))
+                    cin = ir.Value(name=self.name("ci"), shape=ir.Shape([]), type=ir.TensorType(ir.DataType.BOOL))
+                    xin = self.val(self.name("lx"))
+                    cid = ir.node("Identity", [cin], name=self.name("n"))
+                    cid.outputs[0].name = self.name("co")
+                    cid.outputs[0].shape = ir.Shape([])
+                    cid.outputs[0].type = ir.TensorType(ir.DataType.BOOL)
+                    step = ir.node(r.choice(_BINARY), [xin, r.choice(avail)], name=self.name("n"))
+                    step.outputs[0].name = self.name()
+                    self.out_shape(step)
+                    dead = ir.node("Neg", [xin], name=self.name("n"))  # dead code inside the body
+                    dead.outputs[0].name = self.name()
+                    self.out_shape(dead)
+                    body = ir.Graph([it, cin, xin], [cid.outputs[0], step.outputs[0]], nodes=[cid, dead, step], name=self.name("g"))
+                    self.meta(body, 0.3)
+                    trip = ir.node("Constant", [], {"value_int": 2}, name=self.name("n"))
+                    trip.outputs[0].name = self.name()
+                    trip.outputs[0].shape = ir.Shape([])
+                    trip.outputs[0].type = ir.TensorType(ir.DataType.INT64)
+                    nodes.append(trip)
+                    node = ir.node("Loop", [trip.outputs[0], cond, r.choice(avail)], {"body": body}, name=self.name("n"))
+                else:
+                    node = ir.node("If", [cond], {"then_branch": subs[0], "else_branch": subs[1]}, name=self.name("n"))
             elif self.functions:
                 f = r.choice(self.functions) if not self.shared_fn_names else self.functions[-1]
                 ins = [r.choice(avail) for _ in f.inputs]
@@ -796,8 +990,22 @@ class ModelGen:
             nfun = r.choice([1, 1, 2, 3])
             self.fn_pool = ["Fa", "Fb", "Fc"]
             r.shuffle(self.fn_pool)
+        if self.cyclic:
+            nfun = 2
         for _ in range(nfun):
             self.functions.append(self.function())
+        if self.cyclic:
+            # Fa calls Fb (generated) ... and Fb calls Fa: InlinePass.requires must reject the model
+            f0, f1 = self.functions
+            back = ir.node(f1.name, [f0.inputs[0] for _ in f1.inputs], domain=f1.domain, name=self.name("n"))
+            back.outputs[0].name = self.name()
+            self.out_shape(back)
+            f0.append(back)
+            if not any(n.op_type == f0.name for n in f1):
+                fwd = ir.node(f0.name, [f1.inputs[0] for _ in f0.inputs], domain=f0.domain, name=self.name("n"))
+                fwd.outputs[0].name = self.name()
+                self.out_shape(fwd)
+                f1.append(fwd)
         cond = ir.Value(name="cond", shape=ir.Shape([]), type=ir.TensorType(ir.DataType.BOOL))
         g = self.graph([], cond, 0, True)
         g.inputs.append(cond)
@@ -807,7 +1015,7 @@ class ModelGen:
         return m
 
 
-FLAVOURS = ["plain", "plain", "unsorted", "messy", "subunsorted", "plain"]
+FLAVOURS = ["plain", "plain", "unsorted", "messy", "subunsorted", "plain", "cyclic", "plain"]
 
 
 def build_model(seed, flavour="plain"):
@@ -817,6 +1025,7 @@ def build_model(seed, flavour="plain"):
         unsorted=flavour == "unsorted",
         sub_unsorted=flavour == "subunsorted",
         shared_fn_names=flavour == "reuse",
+        cyclic=flavour == "cyclic",
     ).model()
 
 
@@ -846,6 +1055,12 @@ def pass_table():
         ("Inline", lambda: cp.InlinePass()),
         ("OutputFix", lambda: cp.OutputFixPass()),
         ("AddDefaultAttributes", lambda: cp.AddDefaultAttributesPass()),
+        ("ShapeInference(lenient)", lambda: cp.ShapeInferencePass(check_type=False, strict_mode=False, data_prop=False)),
+        ("Checker(full)", lambda: cp.CheckerPass(full_check=True)),
+        ("RemoveUnusedOpsets(main-only)", lambda: cp.RemoveUnusedOpsetsPass(process_functions=False)),
+        ("DeduplicateInitializers(limit=70)", lambda: cp.DeduplicateInitializersPass(size_limit=70)),
+        ("CommonSubexpressionElimination(limit=0)", lambda: cp.CommonSubexpressionEliminationPass(size_limit=0)),
+        ("LiftConstantsToInitializers(limit=3)", lambda: cp.LiftConstantsToInitializersPass(size_limit=3)),
         ("functionalize(RemoveUnusedNodes)", lambda: P.functionalize(cp.RemoveUnusedNodesPass())),
         ("functionalize(IdentityElimination)", lambda: P.functionalize(cp.IdentityEliminationPass())),
     ]
@@ -862,11 +1077,21 @@ def dangling_calls(model, known_functions) -> list[str]:
     return res[:3]
 
 
+_FP_KEEP: list = []
+
+
+def _fp_hold(*objs):
+    """Objects whose id() is part of a fingerprint are kept alive until the case ends (`_FP_KEEP.clear()` in
+    the worker loop): a freed object's address can be reused and would make two different objects look equal."""
+    _FP_KEEP.extend(objs)
+
+
 def ir_fingerprint(model):
     """Everything a pass can change that serialization may hide (None vs "" names and doc strings, object
     identities and order, tensors of non-initializers, meta stores are NOT included: they never serialize)."""
     import onnx_ir as ir
 
+    _FP_KEEP.append(model)  # id() is only an identity while the object lives: see _fp_scope
     fp = [sorted(map(str, model.functions)), dict(model.metadata_props), model.doc_string]
     for gl, _e, _p in all_graph_likes(model):
         ent = [
@@ -877,7 +1102,9 @@ def ir_fingerprint(model):
         vals = {}
         for v in list(gl.inputs) + list(gl.outputs) + (list(gl.initializers.values()) if hasattr(gl, "initializers") else []):
             vals[id(v)] = v
+        _fp_hold(gl, *gl.inputs, *gl.outputs)
         for n in gl:
+            _fp_hold(n, *[v for v in n.inputs if v is not None], *n.outputs, *n.attributes.values())
             ent.append(
                 (id(n), repr(n.name), n.domain, n.op_type, n.overload, repr(n.doc_string), dict(n.metadata_props),
                  [None if v is None else id(v) for v in n.inputs], [id(v) for v in n.outputs],
@@ -886,6 +1113,7 @@ def ir_fingerprint(model):
             for v in n.outputs:
                 vals[id(v)] = v
         for i, v in vals.items():
+            _fp_hold(v, v.const_value)
             ent.append((i, repr(v.name), str(v.shape), str(v.type), id(v.const_value), repr(v.doc_string), dict(v.metadata_props)))
         fp.append(ent)
     return repr(fp)
@@ -1119,6 +1347,10 @@ MEASURES = {
     "OutputFix": _m_output_fix,
     "TopologicalSort": lambda m: 0 if is_sorted(m) else 1,
     "Checker": lambda m: 0,
+    "Checker(full)": lambda m: 0,
+    "RemoveUnusedOpsets(main-only)": lambda m: len(m.graph.opset_imports),
+    "DeduplicateInitializers(limit=70)": _m_inits,
+    "LiftConstantsToInitializers(limit=3)": _m_nodes,
 }
 
 
@@ -1164,6 +1396,72 @@ def initinputs_state(model, reg):
     ]
 
 
+def ssa_strict(model) -> bool:
+    """ONNX's SSA rule as the checker applies it: within the main graph and everything nested in it (and
+    within each function) no name is given to two different values, and no referenced value is unnamed."""
+    import onnx_ir as ir
+
+    def nest_ok(root):
+        seen = {}
+        stack = [root]
+        while stack:
+            gl = stack.pop()
+            vals = list(gl.inputs) + (list(gl.initializers.values()) if hasattr(gl, "initializers") else [])
+            for n in gl:
+                vals += list(n.outputs)
+                for v in n.inputs:
+                    if v is not None and not v.name:
+                        return False
+                for a in n.attributes.values():
+                    if isinstance(a, ir.Attr) and a.type == ir.AttributeType.GRAPH:
+                        stack.append(a.as_graph())
+                    elif isinstance(a, ir.Attr) and a.type == ir.AttributeType.GRAPHS:
+                        stack.extend(a.as_graphs())
+            for v in list(gl.outputs):
+                if not v.name:
+                    return False
+            for v in vals:
+                if v.name:
+                    if seen.setdefault(v.name, v) is not v:
+                        return False
+        return True
+
+    return nest_ok(model.graph) and all(nest_ok(f) for f in model.functions.values())
+
+
+def _root_cause(e: BaseException) -> BaseException:
+    while e.__cause__ is not None:
+        e = e.__cause__
+    return e
+
+
+def raise_allowed(pname: str, e: BaseException, sorted_before: bool, names_ok: bool, flavour: str = "") -> str | None:
+    """The ONLY exceptions a built-in pass may raise on a generated model (reason), else None.
+    Every other exception - in any round, of any pass, composition or reused object - is a failure."""
+    root = _root_cause(e)
+    invalid = (not sorted_before) or (not names_ok)
+    if pname.startswith("Checker") and type(e).__name__ == "ValidationError" and invalid:
+        return "onnx.checker rejects a model that is not sorted / not SSA"
+    if pname.startswith("Checker") and flavour == "cyclic" and "Cycle detected" in str(e):
+        return "onnx.checker rejects cyclic function references"
+    if pname.startswith("LiftConstants") and not names_ok and isinstance(root, ValueError) and "already registered" in str(root):
+        return "lifting a Constant whose output name is already the name of another initializer (non-SSA model)"
+    if pname == "Checker(full)" and type(e).__name__ in ("ValidationError", "InferenceError") and "ShapeInferenceError" in str(e):
+        return "full_check runs strict shape inference; the generator's declared shapes are deliberately sloppy"
+    if (
+        (pname.startswith("functionalize(") or pname == "Inline")
+        and not sorted_before
+        and isinstance(root, ValueError)
+        and "outer-scope value" in str(root)
+    ):
+        return "cloning a graph / function body that is not topologically sorted is rejected"
+    if pname.startswith("ShapeInference") and type(e).__name__ == "SerdeError" and not names_ok:
+        return "the inferred proto of a non-SSA model cannot be deserialized for the merge (model must stay unchanged)"
+    if pname == "Inline" and type(e).__name__ == "PreconditionError":
+        return "cyclic function calls are rejected by InlinePass.requires"
+    return None
+
+
 def apply_pass_case(part: Part, reqs: list, seed: int, flavour: str, pname: str, mk) -> None:
     """One (model, pass) case: oracle + (for the concrete flag models) a Lean request."""
     import onnx_ir as ir
@@ -1171,14 +1469,19 @@ def apply_pass_case(part: Part, reqs: list, seed: int, flavour: str, pname: str,
     case = {"seed": seed, "flavour": flavour, "pass": pname}
     model = build_model(seed, flavour)
     p = mk()
+    # half of the cases: the model handed to the pass has never been serialized (tensor names may differ from
+    # value names); "before" is taken from an identically built twin
+    fresh = random.Random(f"twin:{seed}:{pname}").random() < 0.5
     try:
-        before = ser_bytes(model)
+        before = ser_bytes(build_model(seed, flavour) if fresh else model)
     except Exception:  # noqa: BLE001
         part.count("pass:model-not-serializable")
         return
+    case["never_serialized"] = fresh
     size = model_size(model)
     sorted_before = is_sorted(model)
     named_before, unique_before = names_view(model)
+    ssa_before = ssa_strict(model)
     dup_out = any(len({id(v) for v in gl.outputs}) != len(gl.outputs) for gl, _e, _p in all_graph_likes(model))
     links_before = check_links(model)
     if links_before:
@@ -1196,22 +1499,38 @@ def apply_pass_case(part: Part, reqs: list, seed: int, flavour: str, pname: str,
         extra = ("initinputs", reg, initinputs_state(model, reg))
     rounds, cur, modified_any = 0, model, False
     known_functions = set(model.functions)
-    fp_before = ir_fingerprint(model) if p.in_place else None
+    fp_before = ir_fingerprint(model)
     sig = f"pass/{pname}"
     first = None
     measure = MEASURES.get(pname)
     mu = measure(model) if measure else None
+    last_result = None
     while True:
         try:
-            r = p(cur)
+            # `pass_(previous_result)` is part of the calling convention: use it on every other round
+            r = p(last_result if (last_result is not None and rounds % 2 == 1) else cur)
         except Exception as e:  # noqa: BLE001
             part.count(f"pass:{pname}:raised:{type(e).__name__}")
-            if rounds == 0:
-                # a pass that raises must at least leave the links consistent
-                errs = check_links(cur)
-                if errs:
-                    part.fail(sig + "/raised/links", f"after the pass raised: {errs[0]}", case)
-                part.case([seed, flavour, pname], True, None, **{"pass": pname, "outcome": "raised", "flavour": flavour})
+            why = raise_allowed(pname, e, sorted_before, ssa_before, flavour) if rounds == 0 else None
+            if why is None:
+                part.fail(
+                    sig + f"/raised/{type(e).__name__}",
+                    f"round {rounds + 1}: the pass raised {type(e).__name__}: {str(_root_cause(e))[:160]}",
+                    case,
+                )
+            else:
+                part.count(f"pass:{pname}:allowed-raise:{why[:40]}")
+            # a pass that raises must leave the links consistent, and an analysis pass / a functional pass the model as it was
+            errs = check_links(cur)
+            if errs:
+                part.fail(sig + "/raised/links", f"after the pass raised: {errs[0]}", case)
+            if pname.startswith(("Checker", "ShapeInference")) or not p.in_place:
+                try:
+                    if ser_bytes(cur) != before or (fp_before is not None and ir_fingerprint(cur) != fp_before):
+                        part.fail(sig + "/raised/model-changed", "the pass raised and left the model changed", case)
+                except Exception:  # noqa: BLE001
+                    part.fail(sig + "/raised/model-changed", "the pass raised and the model no longer serializes", case)
+            part.case([seed, flavour, pname], True, None, **{"pass": pname, "outcome": "raised", "flavour": flavour})
             return
         rounds += 1
         # 1. identity
@@ -1229,7 +1548,7 @@ def apply_pass_case(part: Part, reqs: list, seed: int, flavour: str, pname: str,
         # 2. flag honesty
         if not r.modified and after != before:
             part.fail(sig + "/modified-false-but-changed", "modified=False but the serialized model differs", case)
-        fp_after = ir_fingerprint(r.model) if p.in_place else None
+        fp_after = ir_fingerprint(r.model)
         if r.modified and after == before:
             part.count(f"pass:{pname}:modified-true-same-bytes")
             # modified=True must mean something: different bytes OR an IR-only observable changed
@@ -1268,8 +1587,7 @@ def apply_pass_case(part: Part, reqs: list, seed: int, flavour: str, pname: str,
             if extra is not None:
                 _concrete_request(part, reqs, case, extra, r, model)
         modified_any = modified_any or r.modified
-        before, cur = after, r.model
-        sorted_before = sorted_before  # orderedness is only required to be preserved
+        before, cur, last_result = after, r.model, r
         if not r.modified:
             break
         if rounds > size + 1:
@@ -1284,7 +1602,7 @@ def apply_pass_case(part: Part, reqs: list, seed: int, flavour: str, pname: str,
             if ser_bytes(r2.model) != before:
                 part.fail(sig + "/fixpoint/changed", "after modified=False the next application changes the model", case)
         except Exception as e:  # noqa: BLE001
-            part.count(f"pass:{pname}:raised-at-fixpoint:{type(e).__name__}")
+            part.fail(sig + f"/raised/{type(e).__name__}", f"at the fixpoint the pass raised {type(e).__name__}: {str(_root_cause(e))[:160]}", case)
     part.case(
         [seed, flavour, pname],
         first is not None and first[1],
@@ -1416,7 +1734,7 @@ def compose_case(part: Part, reqs: list, seed: int) -> None:
     import onnx_ir as ir
 
     rng = random.Random(f"compose:{seed}")
-    table = [t for t in pass_table() if not t[0].startswith("functionalize") and t[0] != "Checker"]
+    table = [t for t in pass_table() if not t[0].startswith("functionalize") and not t[0].startswith("Checker")]
     P = ir.passes
     model = build_model(seed, "plain")
     records = []  # per wrapper: list of modified flags, in invocation order
@@ -1484,6 +1802,8 @@ def compose_case(part: Part, reqs: list, seed: int) -> None:
     except Exception as e:  # noqa: BLE001
         out = ["raised", _exc_name(e)]
         r = None
+        # plain (sorted, SSA) models and no Checker / functionalize member: nothing may raise
+        part.fail(f"compose/raised/{type(_root_cause(e)).__name__}", f"a composition of built-in passes raised: {str(_root_cause(e))[:160]}", case)
     sig = "compose"  # the leaves are in the case
     if r is not None:
         if p.in_place and r.model is not model:
@@ -1532,7 +1852,7 @@ def reuse_case(part: Part, seed: int) -> None:
 
     P = ir.passes
     rng = random.Random(f"reuse:{seed}")
-    table = [t for t in pass_table() if t[0] != "Checker"]
+    table = [t for t in pass_table() if not t[0].startswith("Checker")]
     byname = dict(table)
     inplace = [t[0] for t in table if not t[0].startswith("functionalize")]
 
@@ -1576,6 +1896,10 @@ def reuse_case(part: Part, seed: int) -> None:
             except Exception as e:  # noqa: BLE001
                 out = ("raised", type(e).__name__, None)
                 r = None
+                # "reuse" models are sorted and SSA: nothing may raise, reused object or not
+                part.fail(sig + f"/raised/{type(_root_cause(e)).__name__}", f"application {k} of one {label} object raised: {str(_root_cause(e))[:160]}", case)
+            if ref_out[0] == "raised":
+                part.fail(sig + f"/raised/{ref_out[1]}", f"a fresh {label} raised {ref_out[1]} on a valid model", case)
             if out != ref_out:
                 part.fail(
                     sig + "/depends-on-earlier-applications",
@@ -1602,7 +1926,8 @@ def reuse_case(part: Part, seed: int) -> None:
                             break
                         try:
                             r2 = shared(cur)
-                        except Exception:  # noqa: BLE001
+                        except Exception as e:  # noqa: BLE001
+                            part.fail(sig + f"/raised/{type(_root_cause(e)).__name__}", f"re-application of the reused object raised: {str(_root_cause(e))[:160]}", case)
                             break
                         cur, bytes_cur, flag = r2.model, ser_bytes(r2.model), r2.modified
                     else:
@@ -1615,8 +1940,8 @@ def reuse_case(part: Part, seed: int) -> None:
                             dang = dangling_calls(r3.model, known)
                             if dang:
                                 part.fail(sig + "/dangling-function-call", dang[0], case)
-                        except Exception:  # noqa: BLE001
-                            pass
+                        except Exception as e:  # noqa: BLE001
+                            part.fail(sig + f"/raised/{type(_root_cause(e)).__name__}", f"at the fixpoint the reused object raised: {str(_root_cause(e))[:160]}", case)
             part.case(["reuse", seed, label, k], k > 0, case if (seed + k) % 211 == 0 else None, reuse_kind=spec if isinstance(spec, str) else spec[0], reuse_outcome=out[0])
 
 
@@ -1640,10 +1965,14 @@ def funcseq_case(part: Part, seed: int) -> None:
     tail = [rng.choice(tails) for _ in range(rng.randint(1, 2))]
     kind = rng.choice(["seq", "seq", "mgr"])
     ms = rng.randrange(10**9)
-    case = {"funcseq_seed": seed, "head": f"functionalize({head})", "tail": tail, "kind": kind}
+    case = {"funcseq_seed": seed, "functional": f"functionalize({head})", "others": tail, "kind": kind}
+
+    pos = rng.choice([0, 0, 0, 1, len(tail)])  # the functional member is usually the head, but not always
 
     def members():
-        return [P.functionalize(byname[head]())] + [byname[t]() for t in tail]
+        ms = [byname[t]() for t in tail]
+        ms.insert(pos, P.functionalize(byname[head]()))
+        return ms
 
     # specification: by hand
     spec_model = build_model(ms, "plain")
@@ -1655,6 +1984,7 @@ def funcseq_case(part: Part, seed: int) -> None:
         spec = ("ok", flag, ser_bytes(cur))
     except Exception as e:  # noqa: BLE001
         spec = ("raised", type(e).__name__, None)
+        part.fail(f"funcseq/member-raised/{type(_root_cause(e)).__name__}", f"a member applied by hand raised on a valid model: {str(_root_cause(e))[:160]}", case)
     model = build_model(ms, "plain")
     try:
         before = ser_bytes(model)
@@ -1682,7 +2012,8 @@ def funcseq_case(part: Part, seed: int) -> None:
         part.fail(sig + "/declaration", "a composition with a functional member declares itself in-place", case)
     if r is not None and r.model is model:
         part.fail(sig + "/identity", "a not-in-place composition returned its input", case)
-    if spec[0] == "ok" and input_changed:
+    case["position"] = pos
+    if spec[0] == "ok" and input_changed and pos == 0:
         part.fail(sig + "/input-changed", "the head is functional but the caller's model was changed by the composition", case)
     part.case(["funcseq", seed], True, case if seed % 101 == 0 else None, funcseq_head=head, funcseq_out=out[0] + ":" + str(out[1]))
 
@@ -1729,6 +2060,15 @@ def boundary_case(part: Part, seed: int, which: str, fault: str) -> None:
             [[id(n) for n in gg] for gg in model.graphs()],
         )
 
+    tensors = []
+    for v in universe:
+        if v.const_value is not None and all(v.const_value is not t for t in tensors):
+            tensors.append(v.const_value)
+
+    def tensor_names():
+        return [t.name for t in tensors]
+
+    tn_before = tensor_names()
     before = snap()
     orig_check, orig_infer, orig_ser = onnx.checker.check_model, onnx.shape_inference.infer_shapes, ir.serde.serialize_model
 
@@ -1758,6 +2098,12 @@ def boundary_case(part: Part, seed: int, which: str, fault: str) -> None:
         for nm, b, a in zip(names, before, after):
             if a != b:
                 part.fail(sig + "/" + nm.split()[0], f"{nm} differ after {which} with fault {fault} ({out[0]})", case)
+    # tensor.name: serialization aligns the name of an initializer's tensor with the value name (documented
+    # side effect); nothing else may happen to it, and nothing at all when serialization is not reached
+    for t, nb, na in zip(tensors, tn_before, tensor_names()):
+        owners = {v.name for gg in model.graphs() for v in gg.initializers.values() if v.const_value is t}
+        if na != nb and (na not in owners or fault == "ser"):
+            part.fail(sig + "/tensor-name", f"tensor.name changed from {nb!r} to {na!r}", case)
     if which == "ShapeInference" and fault in ("call", "ser") and out[:2] != ("ok", False):
         part.fail(sig + "/result", f"shape inference failure must return (model, False), got {out}", case)
     if which == "Checker" and fault in ("call", "ser") and out[0] != "raised":
@@ -1773,10 +2119,20 @@ def boundary_case(part: Part, seed: int, which: str, fault: str) -> None:
 # =========================================================================== workers / run
 
 
+class _Part(Part):
+    """Part that keeps at most two failing inputs PER SIGNATURE (the shared Part keeps the first ten of a
+    worker whatever they are, so a noisy signature could hide every other one)."""
+
+    def fail(self, signature, what, case):
+        if sum(1 for f in self["failures"] if f["signature"] == signature) < 2:
+            self["failures"].append({"signature": signature, "what": what, "case": case})
+
+
 def _worker(job):
     kind, items = job
-    part, reqs = Part(), []
+    part, reqs = _Part(), []
     for it in items:
+        _FP_KEEP.clear()
         try:
             if kind == "infra":
                 obs = run_infra_real(it)
@@ -1834,15 +2190,26 @@ def _compare(ctx: Ctx, req: dict, obs: dict, info: dict, out: dict) -> None:
             ctx.disagree("compose: manager model differs from PassManager on built-in passes", info, {"res": lean, "ncalls": ncalls}, obs)
     elif m == "capi":
         case = info["case"]
-        ctx.case(case, bool(case["inits"]), case if ctx.evaluations % 300 == 0 else None, capi_mode=case["mode"], capi_fault=case["fault"], capi_out=obs["out"][0], capi_inits=len(case["inits"]))
-        lean_world = {"vals": out["vals"], "inits": out["inits"], "inputs": out["inputs"]}
-        if case["mode"] == "shape" and obs["out"] == ["ok", True]:
-            ctx.count("capi:shape-merge-not-modelled")  # the merge of inferred shapes is differential only (part C)
-        elif out["out"] != obs["out"]:
-            ctx.disagree("capi: outcome differs", case, out["out"], obs["out"])
-        elif lean_world != obs["world"] and not (case["mode"] == "shape" and obs["out"] == ["ok", True]):
-            ctx.disagree("capi: world after the call differs", case, lean_world, obs["world"])
-        elif case["mode"] == "call" and obs["proto"] is not None:
+        if "calls" not in case:
+            case = {**case, "calls": [{"fault": case.get("fault", "none")}]}
+        faults = "+".join(c["fault"] for c in case["calls"])
+        ctx.case(case, bool(case["inits"]), case if ctx.evaluations % 300 == 0 else None, capi_mode=case["mode"],
+                 capi_fault=faults if len(case["calls"]) == 1 else f"seq{len(case['calls'])}", capi_out=obs["out"][0],
+                 capi_inits=len(case["inits"]))
+        for k in {s["kind"] for s in case["inits"]}:
+            ctx.count(f"capi_kind={k}")
+        lean_trace = out.get("trace", [])
+        if len(lean_trace) != len(obs["trace"]):
+            ctx.disagree("capi: number of calls", case, len(lean_trace), len(obs["trace"]))
+            return
+        for ci, (lt, it) in enumerate(zip(lean_trace, obs["trace"])):
+            if lt["out"] != it["out"]:
+                ctx.disagree(f"capi: outcome of call {ci} differs", case, lt["out"], it["out"])
+                return
+            if lt["world"] != it["world"]:
+                ctx.disagree(f"capi: world after call {ci} differs", case, lt["world"], it["world"])
+                return
+        if case["mode"] == "call" and obs["proto"] is not None:
             lp = out.get("proto") or {}
             if [k for k, _t in lp.get("inits", [])] != obs["proto"]["inits"] or lp.get("inputs") != obs["proto"]["inputs"]:
                 ctx.disagree("capi: proto handed to the wrapped call differs", case, lp, obs["proto"])
@@ -1854,17 +2221,22 @@ def _compare(ctx: Ctx, req: dict, obs: dict, info: dict, out: dict) -> None:
 
 
 def _resolve_fault(reqs_obs: list) -> None:
-    """Faults on a tensor attribute are given to the model as the index of the primitive step that
-    raises; the index is read off the model's own (fault-free) step log."""
-    pending = [(i, r) for i, (r, _o, _c) in enumerate(reqs_obs) if r.get("m") == "passinfra.capi" and r.get("fault_on")]
+    """Faults on a tensor ATTRIBUTE are given to the model as the index of the primitive step that raises;
+    the index is read off the model's own (fault-free) step log for the same graph.  (The world before
+    every call of a sequence is the same - that is the property - so one dry run per request suffices.)"""
+    pending = [r for r, _o, _c in reqs_obs if r.get("m") == "passinfra.capi" and any(c.get("fault_on") for c in r["seq"])]
     if not pending:
         return
-    dry = lean_batch_parallel([{**r, "fault": None, "ser_fail": False, "func_ok": True, "mode": "call"} for _i, r in pending])
-    for (i, r), d in zip(pending, dry):
-        want = r["fault_on"]
-        k = next((j for j, p in enumerate(d.get("prims", [])) if p == want), None)
-        r["fault"] = [k, False] if k is not None else None
-        r["unresolved"] = k is None
+    dry = lean_batch_parallel(
+        [{**r, "mode": "call", "seq": [{"fault": None, "ser_fail": False, "func_ok": True}]} for r in pending]
+    )
+    for r, d in zip(pending, dry):
+        for c in r["seq"]:
+            if c.get("fault_on"):
+                k = next((j for j, p in enumerate(d.get("prims", [])) if p == c["fault_on"]), None)
+                c["fault"] = [k, False] if k is not None else None
+                if k is None:
+                    r["unresolved"] = True
 
 
 def run(ctx: Ctx) -> None:
@@ -1892,13 +2264,26 @@ def run(ctx: Ctx) -> None:
     # B
     capi = [gen_capi_case(rng) for _ in range(ctx.pick(4000, 40000))]
     # exhaustive small scope: one initializer of every kind x shape/type preset x is_input x fault x mode
-    for kind in ["small", "big", "tiny", "none", "lazy_small", "lazy_big", "lazybad_small", "lazybad_big"]:
+    one_kinds = ["small", "big", "tiny", "none", "lazy_small", "lazy_big", "lazybad_small", "lazybad_big",
+                 "f996", "f1000", "f1004", "u999", "u1000", "u1001", "u0"]
+    one_faults = [{"fault": f} for f in ["none", "func", "ser", "deser", "attr_shape", "attr_dtype"]] + [
+        {"fault": "prim", "k": k, "after": af} for k in range(5) for af in (False, True)
+    ]
+    par = 0
+    for kind in one_kinds:
         for hs in (False, True):
             for ii in (False, True):
-                for fault in ["none", "func", "ser", "attr_shape", "attr_dtype"]:
+                for call in one_faults:
                     for mode in ["call", "checker", "shape"]:
-                        capi.append({"inits": [{"name": "w0", "kind": kind, "has_shape": hs, "has_type": hs, "is_input": ii}], "fault": fault, "target": 0, "mode": mode, "n_inputs": 1})
-    ctx.exhaustive_scopes.append("call_onnx_api: one initializer of each of 8 kinds x shape/type preset x already-input x 5 fault kinds x 3 entry points")
+                        par += 1
+                        capi.append({"inits": [{"name": "w0", "kind": kind, "has_shape": hs, "has_type": hs, "is_input": ii,
+                                                "tname": ["same", "other", "none"][par % 3]}],
+                                     "calls": [dict(call)], "target": 0, "mode": mode, "n_inputs": 1})
+    ctx.exhaustive_scopes.append(
+        "call_onnx_api: one initializer of each of 15 kinds (incl. sizes 996/999/1000/1001/1004 bytes around the limit) x "
+        "shape/type preset x already-input x {no fault, call raises, serialization raises, deserialization raises, "
+        "tensor.shape raises, tensor.dtype raises, every strip step 0..4 raising before / after its effect} x 3 entry points"
+    )
     jobs += [("capi", c) for c in _chunks(capi, 16)]
     # C
     npass = len(pass_table())
@@ -1927,9 +2312,19 @@ def run(ctx: Ctx) -> None:
 
     parts = pmap(_worker, jobs)
     reqs_obs = []
+    per_sig: dict = {}
     for part in parts:
         reqs_obs += part.pop("reqs")
+        # one failing input per signature reaches the context (it keeps 50 in total): every distinct
+        # signature is reported and matched against the known findings
+        keep = []
+        for f in part["failures"]:
+            if per_sig.get(f["signature"], 0) < 1:
+                per_sig[f["signature"]] = per_sig.get(f["signature"], 0) + 1
+                keep.append(f)
+        part["failures"] = keep
         ctx.merge(part)
+    ctx.extra["failing_signatures"] = len(per_sig)
     _resolve_fault(reqs_obs)
     outs = lean_batch_parallel([r for r, _o, _c in reqs_obs] + loop_reqs)
     for (req, obs, info), out in zip(reqs_obs, outs):
@@ -1976,7 +2371,7 @@ def _mgrloop_real(req: dict) -> dict:
 def replay(ctx: Ctx, obj: dict, _count: bool = True) -> None:
     """Re-run one recorded case (a replay file written by a violation, or a corpus line)."""
     case = obj.get("case", obj)
-    part, reqs = Part(), []
+    part, reqs = _Part(), []
     if isinstance(case, dict) and "pass" in case and "seed" in case and "fault" not in case:
         table = dict(pass_table())
         apply_pass_case(part, reqs, case["seed"], case.get("flavour", "plain"), case["pass"], table[case["pass"]])
